@@ -220,7 +220,7 @@ def assertion_class(detail: str, src: str) -> str:
     m = re.search(r"^>\s+assert (.*)$", detail, re.M)
     line = m.group(1) if m else ""
     if "float('nan')" in line or "float(\"nan\")" in line or re.search(r"\bnan\b", detail.split("\n")[0].lower()):
-        return "nan"
+        return "non-holding-nan"
     am = re.search(r"^(\w+) = sys\.modules\[", src, re.M)
     alias = am.group(1) if am else None
     try:
@@ -234,7 +234,7 @@ def assertion_class(detail: str, src: str) -> str:
         while isinstance(left, ast.Attribute):
             left = left.value
         if isinstance(left, ast.Name) and left.id == alias:
-            return "static-state"
+            return "non-holding-static-state"
     return "value"
 
 
